@@ -1,48 +1,38 @@
 //! krill-sim: deterministic simulation of Krill with fault injection.
 #![allow(dead_code)]
 
+mod c02;
+mod c03;
+mod c04;
+mod c06;
+mod c14;
+mod check;
+mod history;
 mod hooks;
+mod model;
+mod ops;
+mod oracles;
+mod profiles;
 mod rng;
 mod rp;
+mod runs;
 mod sched;
 mod seams;
 mod sim;
 mod util;
 mod world;
 
-use std::collections::BTreeSet;
 use std::path::PathBuf;
 
-fn smoke(seed: u64) -> Result<String, String> {
-    let base = world::make_run_dir(seed, "smoke");
-    hooks::state().reset_for_run(&base, true);
-    seams::set_seed(seed);
-    seams::set_thread_stream(0);
-    seams::enable(true);
-    let mut w = sim::World::new(&base, 1_767_225_600); // 2026-01-01
-    let a = w.add_instance(world::InstCfg::basic("a"));
-    w.insts[a].start()?;
-    let t0 = std::time::Instant::now();
-    println!("pump0: {:?}", w.pump(600, 40));
-    w.create_ca(a, "ca1")?;
-    w.setup_repo(a, "ca1", a)?;
-    w.add_child(
-        a, "testbed", a, "ca1", "ca1", "testbed",
-        &sim::resources("AS65000-AS65010", "10.0.0.0/16", "2001:db8::/32")
-    )?;
-    println!("pump1: {:?}", w.pump(600, 40));
-    w.roa_update(a, "ca1", &["10.0.0.0/24 => 65000", "10.0.1.0/24-24 => 65001"], &[])?;
-    println!("pump2: {:?}", w.pump(600, 40));
-    let res = w.rp_walk(a, &BTreeSet::new())?;
-    println!("accepted={} vrps={:?} issues={:?}", res.accepted.len(), res.vrps, res.issues);
-    println!("elapsed {:?}", t0.elapsed());
-    let st = hooks::state();
-    let fp = util::sha256_hex(st.trace.join("\n").as_bytes());
-    println!("trace lines {} keys {} fp {}", st.trace.len(), st.key_cursor, fp);
-    drop(st);
-    drop(w);
-    world::remove_run_dir(&base);
-    Ok(fp)
+fn usage() -> ! {
+    eprintln!(
+        "usage: krill-sim check <PROP> <quick|thorough>\n\
+         \x20      krill-sim worker <profile> <first-seed> <count> <stride>\n\
+         \x20      krill-sim run <profile> <seed>\n\
+         \x20      krill-sim replay <file>\n\
+         \x20      krill-sim determinism <profile> <first-seed> <count>"
+    );
+    std::process::exit(2);
 }
 
 fn main() {
@@ -53,16 +43,38 @@ fn main() {
     );
     hooks::install(&keypool);
     let args: Vec<String> = std::env::args().collect();
-    let seed = util::env_u64("VERIF_SEED", 1);
-    match args.get(1).map(|s| s.as_str()) {
-        Some("smoke") => {
-            let res = std::thread::spawn(move || smoke(seed)).join().unwrap();
-            println!("{res:?}");
+    let code = match args.get(1).map(|s| s.as_str()) {
+        Some("check") => {
+            if args.len() < 4 { usage() }
+            check::check(&args[2], &args[3])
         }
-        _ => {
-            eprintln!("usage: krill-sim smoke");
-            std::process::exit(2);
+        Some("worker") => {
+            if args.len() < 6 { usage() }
+            check::worker(
+                &args[2],
+                args[3].parse().unwrap_or_else(|_| usage()),
+                args[4].parse().unwrap_or_else(|_| usage()),
+                args[5].parse().unwrap_or_else(|_| usage()),
+            )
         }
-    }
+        Some("run") => {
+            if args.len() < 4 { usage() }
+            check::run_one(&args[2], args[3].parse().unwrap_or_else(|_| usage()))
+        }
+        Some("replay") => {
+            if args.len() < 3 { usage() }
+            check::replay(&args[2])
+        }
+        Some("determinism") => {
+            if args.len() < 5 { usage() }
+            check::determinism(
+                &args[2],
+                args[3].parse().unwrap_or_else(|_| usage()),
+                args[4].parse().unwrap_or_else(|_| usage()),
+            )
+        }
+        _ => usage()
+    };
     world::remove_process_dir();
+    std::process::exit(code);
 }
